@@ -210,3 +210,9 @@ def run(ctx):
     ctx.guarded(r, JD.r_constructors)
     r = ctx.rule("R4b", "bulk results expose exactly n samples per output (driver arithmetic)", 11)
     ctx.guarded(r, JD.r_bulk_driver)
+    from .. import a64checks as XC
+
+    r = ctx.rule("R2a", "aarch64 choice protocol: byte loaded from [x1], one choice ORed, flag through x2 iff decided, stored back with x1 += 1, value = chosen operand; strict branches", 26 + 28 + 8)
+    for kind in XC.TRACING:
+        ctx.guarded(r, XC.check_choice_protocol, kind)
+    ctx.guarded(r, XC.check_strictness)
